@@ -459,9 +459,10 @@ PoolFaults(events, k, inPool) ==
            [] OTHER -> PoolFaults(events, k + 1, inPool)
 
 PoolSound(scn, obs) ==
-    IF obs.pool = <<>> THEN {} ELSE
     LET px == IF obs.ref.has /\ obs.ref.kind = "history" THEN "C15" ELSE "C14" IN
-    {px \o ".Pool" \o f : f \in PoolFaults(obs.pool, 1, {})}
+    (IF obs.pool = <<>> THEN {} ELSE {px \o ".Pool" \o f : f \in PoolFaults(obs.pool, 1, {})})
+    \* none of the RPCs that ran before the probe made ServeHTTP panic (their handlers do not)
+    \cup (IF obs.histpanics = <<>> THEN {} ELSE {px \o ".EarlierRpcPanicked"})
 
 C08(scn, obs) == RefCompare(scn, obs) \cup PoolSound(scn, obs)
 
